@@ -1,0 +1,15 @@
+//go:build verif
+// +build verif
+
+package mod_header
+
+import (
+	"github.com/bfenetworks/bfe/bfe_basic"
+)
+
+// VerifSetDefaultHeader runs setDefaultHeader of a fresh module on request.
+// For the out-of-tree verification harness.
+func VerifSetDefaultHeader(request *bfe_basic.Request) {
+	m := NewModuleHeader()
+	m.setDefaultHeader(request)
+}
